@@ -142,6 +142,11 @@ def parameter_objects():
            ("ft-noncanonical-sparse", FunctionTransformer(np.add, kw_args={"m": unsorted_csr, "c": _sp.coo_matrix((np.array([1.0, 2.0]), (np.array([0, 0]), np.array([1, 1]))), shape=(1, 2))})),
            ("imputer-npstr", SimpleImputer(strategy="constant", fill_value=np.str_("missing"))),
            ("logreg-npstr-keys", LogisticRegression(class_weight={np.str_("a"): 1.0, np.str_("b"): 2.0})),
+           # class labels that read like JSON literals without being in JSON's own spelling (labels of a numpy string array)
+           ("logreg-literal-like-labels", LogisticRegression(class_weight=dict(zip(np.unique(np.array(["true", "null", "1.50", "1e3", "NaN", "-0", "yes"])),
+                                                                                   [1.0, 2.0, 3.0, 4.0, 5.0, 6.0, 7.0])))),
+           ("sgd-literal-like-labels", __import__("sklearn.linear_model", fromlist=["x"]).SGDClassifier(
+               class_weight={np.str_("true"): 1.0, np.str_("false"): 2.0, "true ": 3.0, np.str_("01"): 4.0, np.str_("1.0"): 5.0})),
            ("dummy-npstr-constant", DummyClassifier(strategy="constant", constant=np.str_("a"))),
            ("ft-kwargs", FunctionTransformer(np.add, kw_args={"out": None, "scalars": [np.void(b"ab"), np.datetime64("2020-01-01"), np.timedelta64(3, "s")]}))]
     for t in sorted(set(np.sctypeDict.values()), key=lambda t: t.__name__):
